@@ -141,6 +141,11 @@ class Obj:
         return _result(fn, env, kind, val)
 
 
+import re as _re_mod
+import string as _string_mod
+_SAFE_MODULES = {'re': _re_mod, 'string': _string_mod}
+
+
 class GenList(list):
     """the values a generator function yields, produced eagerly (the interpreted generators are finite): iterable, next()-able"""
 
@@ -443,11 +448,20 @@ def ev(n, env, funcs=None):
             if isinstance(v, (int, float)):
                 return float(v).is_integer()
             raise Unsupported('is_integer on a non-number')
+        if isinstance(f, ast.Attribute) and isinstance(f.value, ast.Name) and f.value.id in _SAFE_MODULES and f.value.id not in env \
+                and hasattr(_SAFE_MODULES[f.value.id], fname) and not fname.startswith('_'):
+            # a pure standard-library function on text / numbers (re.match, string constants ...)
+            a_ = _args(n, env, funcs)
+            if any(isinstance(x_, (Obj, PyStub)) for x_ in a_):
+                raise Unsupported('call %s on an abstract object' % _unparse(n))
+            return getattr(_SAFE_MODULES[f.value.id], fname)(*a_, **_kw(n, env, funcs))
         if isinstance(f, ast.Attribute) and _unparse(f.value) not in ('math', 'np', 'numpy', 'tracklib', 'progressbar'):
             try:
                 rv = ev(f.value, env, funcs)
             except Unsupported:
                 rv = None
+            if type(rv).__module__ == 're' and not fname.startswith('_') and hasattr(rv, fname):      # re.Match / re.Pattern objects
+                return getattr(rv, fname)(*_args(n, env, funcs), **_kw(n, env, funcs))
             if type(rv) in (list, set, dict, str, tuple, bytes, frozenset) and not fname.startswith('_') and hasattr(rv, fname):
                 kw_ = _kw(n, env, funcs)
                 if fname == 'sort' and callable(kw_.get('key')) or fname == 'sort':
@@ -642,8 +656,11 @@ def ev(n, env, funcs=None):
             # remaining builtins with their Python meaning on the interpreter's values
             if fname == 'id' and len(args) == 1:
                 return id(args[0])
-            if fname == 'hash' and len(args) == 1 and not isinstance(args[0], (Obj, PyStub)):
-                return hash(args[0])
+            if fname == 'hash' and len(args) == 1:
+                a0 = args[0]
+                if isinstance(a0, Obj):
+                    return a0.call('__hash__') if '__hash__' in a0.methods else id(a0)
+                return hash(a0)
             if fname == 'repr' and len(args) == 1:
                 a0 = args[0]
                 if isinstance(a0, Obj):
